@@ -6,6 +6,7 @@ import (
 	"fmt"
 	"os"
 	"path/filepath"
+	"runtime"
 	"sort"
 	"strings"
 	"sync"
@@ -366,9 +367,14 @@ func init() {
 
 // calls on one environment while another call on it is in flight
 func c17sameEnv(x *mc.X) {
-	second := x.Pick("second-call", "execve", "ping", "open", "reset", "ping-behind-execve-longer-than-ping-timeout")
+	second := x.Pick("second-call", "execve", "ping", "open", "reset", "ping-behind-execve-longer-than-ping-timeout",
+		"failing-ptrace-run-on-the-thread-that-built-the-environment", "failing-namespace-run-on-the-thread-that-built-the-environment")
 	x.Note("same-environment", "execve in flight, then "+second)
 	if x.Dry() {
+		return
+	}
+	if strings.HasPrefix(second, "failing-") {
+		c17threadExit(x, second)
 		return
 	}
 	e, err := c17env(0)
@@ -440,5 +446,68 @@ func c17sameEnv(x *mc.X) {
 	if said != want {
 		x.Failf("C17/same-env/second-call-wrong/"+second, "%s queued behind a running execve returned %s, alone it returns %s", second, said, want)
 		c17drop()
+	}
+}
+
+// c17threadExit: a goroutine pinned to one thread builds an environment, then performs a run of another runner whose
+// start fails, and ends. The environment (whose init was forked from that thread) must be unaffected: a run that is in
+// flight on it and later calls behave as alone.
+func c17threadExit(x *mc.X, kind string) {
+	envCh := make(chan container.Environment, 1)
+	goOn := make(chan struct{})
+	done := make(chan struct{})
+	go func() {
+		defer close(done)
+		runtime.LockOSThread()
+		defer runtime.UnlockOSThread() // balanced: the thread survives unless the library leaves its own lock behind
+		e, err := newContainer(nil)
+		if err != nil {
+			envCh <- nil
+			return
+		}
+		envCh <- e
+		<-goOn
+		fail := func(int) error { return fmt.Errorf("callback refuses") }
+		if strings.Contains(kind, "ptrace") {
+			runPtrace(context.Background(), []string{probe("burn"), "exit", "0"}, func(r *ptrace.Runner) { r.SyncFunc = fail })
+		} else {
+			runUnshare(context.Background(), []string{"/probe/burn", "exit", "0"}, func(r *unshare.Runner) { r.SyncFunc = fail })
+		}
+	}()
+	e := <-envCh
+	if e == nil {
+		x.Failf("C17/harness", "cannot build the environment")
+		return
+	}
+	defer e.Destroy()
+	r := &c17run{kind: "containerA", tag: "T", exit: 11, nfiles: 1, env: e}
+	r.prepare()
+	defer os.RemoveAll(r.dir)
+	if err := r.launch(); err == nil {
+		err = r.release()
+		if err != nil {
+			c17abort([]*c17run{r})
+			x.Failf("C17/thread/harness", "%v", err)
+			return
+		}
+	} else {
+		c17abort([]*c17run{r})
+		x.Failf("C17/thread/harness", "%v", err)
+		return
+	}
+	close(goOn)
+	<-done
+	time.Sleep(50 * time.Millisecond) // the thread (if it is going to) has exited by now
+	ferr := r.finish()
+	first := r.observation()
+	var perr error
+	pinged := withTimeout(horizon, func() { perr = e.Ping() })
+	x.Distinct(fmt.Sprint(kind, first, perr))
+	x.Outcome("thread-exit:" + kind)
+	if ferr != nil || !strings.HasPrefix(first, "Nonzero Exit Status exit=11 err=\"\"") {
+		x.Failf("C17/thread/in-flight-run-disturbed/"+kind, "a %s ended the run that was in flight on an unrelated environment: %s (%v)", kind, first, ferr)
+	}
+	if !pinged || perr != nil {
+		x.Failf("C17/thread/environment-lost/"+kind, "after a %s the unrelated environment is gone: ping says %v", kind, perr)
 	}
 }
